@@ -180,7 +180,7 @@ Proof.
     cbn [corr_run] in Hc.
     rewrite (process_gen ids e ev i k item Hnd Hk Hl) in Hc. cbn [fst snd econn calls] in Hc.
     repeat (apply andb_true_iff in Hc; destruct Hc as [Hc ?]).
-    rename H into Hrest, H0 into Hcalls, H1 into Hout, H2 into Hlinks.
+    rename H into Hrest, H0 into Hrt, H1 into Hcalls, H2 into Hout, H3 into Hlinks.
     apply health_eqb_eq in Hc. apply entries_eqb_eq in Hlinks.
     rewrite skipn_app_length in Hcalls. apply list_eqb_N_eq in Hcalls.
     assert (Hin : In i (keys (econn e))) by (rewrite Hk; eapply link_of_in; eauto).
@@ -188,7 +188,7 @@ Proof.
     set (s' := gen (econn e) i k item) in *.
     assert (K' : keys s' = ids) by (unfold s'; now rewrite gen_keys).
     assert (I' : Inv s') by (now apply gen_Inv).
-    cbn [prop_run]. apply andb_true_iff. split; [apply andb_true_iff; split|].
+    cbn [prop_run]. apply andb_true_iff. split; [apply andb_true_iff; split; [apply andb_true_iff; split|]|].
     + (* obs_ok *)
       unfold obs_ok. rewrite Hl. rewrite <- Hlinks, <- Hc, <- Hcalls.
       unfold s'. rewrite gen_exchanges by assumption. rewrite entries_eqb_refl. cbn [andb].
@@ -220,6 +220,8 @@ Proof.
            rewrite (proj2 G A). reflexivity.
         -- destruct (global s') eqn:Eg; [|reflexivity].
            pose proof (proj2 (spec_global_iff ids (hist ++ [ev])) (proj1 G eq_refl)) as A. congruence.
+    + (* persist / restore *)
+      rewrite <- Hlinks, <- Hc. exact Hrt.
     + (* the rest of the run *)
       rewrite <- Hlinks.
       apply (IH os' (mkEngine s' (calls e ++ spec_calls [ev])) b (hist ++ [ev])); try assumption.
